@@ -44,6 +44,7 @@ type RStep struct {
 	Len  int      `json:"len"`
 	Bk   bool     `json:"bk"`
 	Dup  bool     `json:"dup"` // the batch lists its first key once more at its end
+	Ash  int64    `json:"ash"` // seed of the argument shapes the Spec ignores (0: from the scenario seed and the step position)
 	Rs   []int    `json:"rs"`
 	M    string   `json:"m"`
 	Sigs [][]RSig `json:"sigs"`
@@ -83,6 +84,7 @@ type rworld struct {
 	rcid   map[string][]byte
 	rname  map[string]string
 	sigmem map[string][]byte
+	lastReps map[string][]int64 // committed REP numbers as last observed
 }
 
 func newRWorld(t *testing.T, n int, seed int64) *rworld {
@@ -105,18 +107,39 @@ func newRWorld(t *testing.T, n int, seed int64) *rworld {
 }
 
 // message m for container c: a well-formed meta-information blob (so that it can be submitted)
-func (w *rworld) msg(c, m string) []byte {
+// msg: message m for container c, a well-formed meta-information blob (so that it can be submitted). ms selects the
+// parts the contract only validates: order of the map keys, size, entries of deleted / locked, a surplus key, a
+// validuntil just above the current height.
+func (w *rworld) msg(c, m string, ms int) []byte {
 	oid := sha256.Sum256([]byte("oid|" + c + "|" + m))
-	mp := stackitem.NewMapWithValue([]stackitem.MapElement{
+	id := func(s string) []byte { h := sha256.Sum256([]byte(s)); return h[:] }
+	size, del, lock, vub := any(123), []any{}, []any{}, int64(1)<<40
+	switch ms {
+	case 1:
+		size, del, lock = 0, []any{id("d1"), id("d2")}, []any{id("l1")}
+	case 2:
+		size, vub = int64(1)<<50, int64(w.c.Height())+3
+	case 3:
+		del = []any{id("d3")}
+	}
+	els := []stackitem.MapElement{
 		{Key: stackitem.Make("network"), Value: stackitem.Make(int64(w.c.E.Chain.GetConfig().Magic))},
 		{Key: stackitem.Make("cid"), Value: stackitem.Make(w.rcid[c])},
 		{Key: stackitem.Make("oid"), Value: stackitem.Make(oid[:])},
-		{Key: stackitem.Make("size"), Value: stackitem.Make(123)},
-		{Key: stackitem.Make("deleted"), Value: stackitem.Make([]any{})},
-		{Key: stackitem.Make("locked"), Value: stackitem.Make([]any{})},
-		{Key: stackitem.Make("validuntil"), Value: stackitem.Make(int64(1) << 40)},
-	})
-	b, err := stackitem.Serialize(mp)
+		{Key: stackitem.Make("size"), Value: stackitem.Make(size)},
+		{Key: stackitem.Make("deleted"), Value: stackitem.Make(del)},
+		{Key: stackitem.Make("locked"), Value: stackitem.Make(lock)},
+		{Key: stackitem.Make("validuntil"), Value: stackitem.Make(vub)},
+	}
+	if ms == 3 {
+		els = append(els, stackitem.MapElement{Key: stackitem.Make("comment"), Value: stackitem.Make("surplus key")})
+	}
+	if ms == 1 || ms == 3 { // another order of the keys
+		for i, j := 0, len(els)-1; i < j; i, j = i+1, j-1 {
+			els[i], els[j] = els[j], els[i]
+		}
+	}
+	b, err := stackitem.Serialize(stackitem.NewMapWithValue(els))
 	require.NoError(w.t, err)
 	return b
 }
@@ -131,12 +154,13 @@ func malleate(sig []byte) []byte {
 	return out
 }
 
-func (w *rworld) sigBytes(c string, s RSig) []byte {
-	key := c + "|" + s.M + "|" + strconv.Itoa(s.K)
+func (w *rworld) sigBytes(c string, s RSig, ms int) []byte {
+	mh := sha256.Sum256(w.msg(c, s.M, ms))
+	key := hex.EncodeToString(mh[:]) + "|" + strconv.Itoa(s.K)
 	sig, ok := w.sigmem[key]
 	if !ok {
 		require.True(w.t, s.K >= 1 && s.K <= poolK, "key index %d", s.K)
-		sig = pool[s.K-1].Sign(w.msg(c, s.M)) // ECDSA over sha256(message), as tests/container_test.go does
+		sig = pool[s.K-1].Sign(w.msg(c, s.M, ms)) // ECDSA over sha256(message), as tests/container_test.go does
 		w.sigmem[key] = sig
 	}
 	switch s.F {
@@ -148,14 +172,23 @@ func (w *rworld) sigBytes(c string, s RSig) []byte {
 	return sig
 }
 
-func (w *rworld) matrix(c string, sigs [][]RSig) []any {
+// matrix builds the signature matrix; an empty (inner or outer) list is passed as an empty Array or as Null
+// (not for a vector whose REP number is 0: there the contract ranges over the Null and FAULTs, with REP >= 1 it
+// answers false before; REP 0 is outside C14's quantifier, the difference is reported, not modelled)
+func (w *rworld) matrix(r *rand.Rand, c string, sigs [][]RSig, ms int) any {
+	if len(sigs) == 0 && r.Intn(2) == 0 {
+		return nil
+	}
 	out := make([]any, len(sigs))
 	for i, vec := range sigs {
 		v := make([]any, len(vec))
 		for j, s := range vec {
-			v[j] = w.sigBytes(c, s)
+			v[j] = w.sigBytes(c, s, ms)
 		}
 		out[i] = v
+		if len(vec) == 0 && r.Intn(2) == 0 && !(i < len(w.lastReps[c]) && w.lastReps[c][i] == 0) {
+			out[i] = nil
+		}
 	}
 	return out
 }
@@ -175,6 +208,8 @@ func keysOf(from, ln int, dup bool) []int {
 func (w *rworld) rexec(st RStep) chain.Rec {
 	sg, names := w.signers(st.S)
 	w.step++
+	sh := w.shape(&st.Ash)
+	ms := sh.Intn(4)
 	id := w.rcid[st.C]
 	require.NotNil(w.t, id, "cid %q", st.C)
 	res, ret, fault := "HALT", "null", ""
@@ -186,20 +221,31 @@ func (w *rworld) rexec(st RStep) chain.Rec {
 		for i, k := range ks {
 			pubs[i] = pool[k-1].PublicKey().Bytes()
 		}
+		var keys any = pubs
 		if st.Bk && len(pubs) > 0 {
-			pubs[len(pubs)/2] = pubs[len(pubs)/2].([]byte)[:32]
+			pubs[sh.Intn(len(pubs))] = rbytes(sh, []int{0, 32, 34, 65}[sh.Intn(4)]) // a key of another length, anywhere
+		} else if st.Bk {
+			keys = nil // Null instead of a list
 		}
-		r := w.c.Run(w.cn, sg, "addNextEpochNodes", id, st.V, pubs)
+		r := w.c.Run(w.cn, sg, "addNextEpochNodes", id, st.V, keys)
 		res, fault = r.Res(), r.Fault
 	case "commit":
-		var rs any = []byte{}
-		if len(st.Rs) > 0 {
+		// replicas: a byte string or an array of integers; the empty list also as Null
+		var rs any
+		if sh.Intn(2) == 0 {
 			b := make([]byte, len(st.Rs))
 			for i, x := range st.Rs {
 				b[i] = byte(x)
 			}
 			rs = b
-		} else if w.step%2 == 0 {
+		} else {
+			a := make([]any, len(st.Rs))
+			for i, x := range st.Rs {
+				a[i] = x
+			}
+			rs = a
+		}
+		if len(st.Rs) == 0 && sh.Intn(3) == 0 {
 			rs = nil
 		}
 		r := w.c.Run(w.cn, sg, "commitContainerListUpdate", id, rs)
@@ -212,7 +258,7 @@ func (w *rworld) rexec(st RStep) chain.Rec {
 			}
 		}
 	case "verify":
-		stk, err := w.c.Call(w.cn, "verifyPlacementSignatures", id, w.msg(st.C, st.M), w.matrix(st.C, st.Sigs))
+		stk, err := w.c.Call(w.cn, "verifyPlacementSignatures", id, w.msg(st.C, st.M, ms), w.matrix(sh, st.C, st.Sigs, ms))
 		if err != nil {
 			res, fault = "FAULT", err.Error()
 		} else {
@@ -221,7 +267,7 @@ func (w *rworld) rexec(st RStep) chain.Rec {
 			ret = strconv.FormatBool(b)
 		}
 	case "submit":
-		r := w.c.Run(w.cn, sg, "submitObjectPut", w.msg(st.C, st.M), w.matrix(st.C, st.Sigs))
+		r := w.c.Run(w.cn, sg, "submitObjectPut", w.msg(st.C, st.M, ms), w.matrix(sh, st.C, st.Sigs, ms))
 		res, fault = r.Res(), r.Fault
 		if r.Halt {
 			for _, ev := range r.Events {
@@ -249,7 +295,7 @@ func (w *rworld) rexec(st RStep) chain.Rec {
 	if st.S == nil {
 		names = []string{}
 	}
-	return chain.Rec{"act": st.Act, "S": names, "c": st.C, "v": st.V, "from": st.From, "len": st.Len, "bk": st.Bk, "dup": st.Dup, "rs": rs, "m": st.M,
+	return chain.Rec{"act": st.Act, "S": names, "c": st.C, "v": st.V, "from": st.From, "len": st.Len, "bk": st.Bk, "dup": st.Dup, "ash": st.Ash, "rs": rs, "m": st.M,
 		"sigs": sigs, "res": res, "ret": ret, "ntf": ntf, "fault": fault}
 }
 
@@ -340,6 +386,10 @@ func (w *rworld) robserve() map[string]any {
 			rl = append(rl, bigFromVM(kv.v).Int64())
 		}
 		reps[c] = rl
+		if w.lastReps == nil {
+			w.lastReps = map[string][]int64{}
+		}
+		w.lastReps[c] = rl
 		// API
 		vecs := make([]any, rMaxVec+1)
 		for v := 0; v <= rMaxVec; v++ {
@@ -387,7 +437,7 @@ func runRScenario(t *testing.T, rec *chain.Recorder, idx int, sc *RScenario, see
 	w.bad = nil
 	obs := w.robserve()
 	require.Empty(t, w.bad, "initial observation")
-	rec.Emit(chain.Rec{"t": idx, "act": "reset", "S": []string{}, "c": "nil", "v": 0, "from": 0, "len": 0, "bk": false, "dup": false, "rs": []int{}, "m": "nil",
+	rec.Emit(chain.Rec{"t": idx, "act": "reset", "S": []string{}, "c": "nil", "v": 0, "from": 0, "len": 0, "bk": false, "dup": false, "ash": 0, "rs": []int{}, "m": "nil",
 		"sigs": []any{}, "res": "HALT", "ret": "null", "ntf": []any{}, "obs": obs, "bad": []string{}, "n": sc.N, "src": sc.Src})
 	for _, st := range sc.Steps {
 		w.bad = nil
@@ -472,7 +522,7 @@ func randRScenario(r *rand.Rand) *RScenario {
 				ln = 1 + r.Intn(3)
 			}
 			s := sig()
-			bk := r.Intn(12) == 0 && ln > 0
+			bk := r.Intn(12) == 0 // (with an empty batch: Null instead of a list)
 			dup := ln > 0 && (r.Intn(6) == 0 || (narrow && r.Intn(3) == 0))
 			sc.Steps = append(sc.Steps, RStep{Act: "add", S: s, C: c, V: v, From: from, Len: ln, Bk: bk, Dup: dup, M: "nil"})
 			if len(s) == 1 && s[0] == "ALPHA" && !bk && (v == 0 || len(m.pend[c][v-1]) > 0) {
@@ -489,6 +539,9 @@ func randRScenario(r *rand.Rand) *RScenario {
 			rs := make([]int, nv)
 			for j := range rs {
 				rs[j] = 1 + r.Intn(4)
+				if r.Intn(12) == 0 {
+					rs[j] = 0 // REP 0: outside the property's quantifier, the Spec models the loop literally
+				}
 				if narrow {
 					rs[j] = 2 + r.Intn(2) // REP 2..3 over a handful of keys: the interesting range for repeated members
 				}
